@@ -4,7 +4,8 @@
 From Coq Require Import ZArith List Bool Lia.
 Require Import Bits.Lib.Result Bits.Lib.Bytes Bits.Model.Ecmath Bits.Model.Keys Bits.Model.Der
   Bits.Proofs.Ecmath Bits.Proofs.Ecdsa Bits.Proofs.EcdsaMore Bits.Proofs.EcdsaNonce
-  Bits.Proofs.SmallCurves Bits.Proofs.SmallCurvesBig Bits.Spec.Bip66 Bits.Proofs.Der.
+  Bits.Proofs.SmallCurves Bits.Proofs.SmallCurvesBig Bits.Spec.Bip66 Bits.Proofs.Der
+  Bits.Model.Sec1 Bits.Proofs.Sec1 Bits.Proofs.Sec1Small Bits.Proofs.SigRoundtrip.
 Import ListNotations.
 Import Coq.Init.Byte.
 Local Open Scope Z_scope.
@@ -89,6 +90,19 @@ Theorem C01_sig_preimage_flag_suffix : forall p a n G sha256 draws key msg sg re
   of_le (lastn 4 msg) < 256 /\ exists der, sg = der ++ [z2b (of_le (lastn 4 msg))].
 Proof. exact sig_preimage_flag_suffix. Qed.
 Print Assumptions C01_sig_preimage_flag_suffix.
+
+(* wrapper level: what utils.sig returns is accepted ("OK") by utils.sig_verify under the signer's public key in
+   compressed (c = true) AND uncompressed (c = false) SEC1 form, in plain-message (pre = false) and preimage
+   (pre = true) mode, for every flag byte and ANY hash function; sec1_facts = square roots mod p (C14) *)
+Theorem C01_sig_then_sig_verify : forall p a b n G sha256,
+  curve_facts p a b n G -> sec1_facts p a b -> n <= 2 ^ 256 ->
+  forall draws key msg f pre sg rest c,
+  sig p a n G sha256 draws key msg (Some f) pre = Ok (sg, rest) -> 0 <= f < 256 ->
+  exists d x y pk,
+    privkey_int n key = Ok d /\ smul p a d G = Some (x, y) /\ pubkey x y c = Ok pk /\
+    sig_verify p a b n G sha256 sg pk msg pre = Ok true.
+Proof. exact sig_then_sig_verify. Qed.
+Print Assumptions C01_sig_then_sig_verify.
 
 (* the premises hold on the small curves: there the theorems above are unconditional *)
 Theorem C01_premises_hold_on_small_curves :
